@@ -122,7 +122,7 @@ def run(chk):
         return
     use_driver = proved and os.path.exists(DRV)
     quick = chk.tier == "quick"
-    # quick: 16 jobs x 8 configs x 30 sequences (= 128 configs x 30); thorough: 32 jobs x 15 configs x 30 + big tables + 16 ASan/UBSan jobs
+    # quick: 16 jobs x 8 configs x 30 sequences (= 128 configs x 30); thorough: 64 jobs x 20 configs x 30 + 16 big-table jobs + 24 ASan/UBSan jobs
     jobs = []
     base = chk.seed * 1000
     if quick:
@@ -130,9 +130,9 @@ def run(chk):
             jobs.append((exe, [base + j, 8, 30, 400]))
         jobs.append((exe, [base + 500, 0, 0, 0]))                      # helper functions only, 5000 inputs
     else:
-        for j in range(32):
-            jobs.append((exe, [base + j, 15, 30, 400]))
-        for j in range(8):
+        for j in range(64):
+            jobs.append((exe, [base + j, 20, 30, 400]))
+        for j in range(16):
             jobs.append((exe, [base + 100 + j, 12, 6, 300, "big"]))
         jobs.append((exe, [base + 500, 0, 0, 0]))
         okA, logA, exeA = build(asan=True)
@@ -140,9 +140,9 @@ def run(chk):
             chk.fail("build", {"theorem": "ASan/UBSan build of harness/scen/lfht_seq.c failed", "lean_error": logA[-2000:]},
                      nofail=True)
             return
-        for j in range(16):
+        for j in range(24):
             jobs.append((exeA, [base + 200 + j, 10, 20, 300]))
-        chk.notes.append("thorough: 16 of the jobs run under -fsanitize=address,undefined -fno-sanitize-recover=all (leak check on)")
+        chk.notes.append("thorough: 24 of the jobs run under -fsanitize=address,undefined -fno-sanitize-recover=all (leak check on)")
     hist = {}
     seen = set()
     nseq = nontriv = lines = 0
